@@ -1,5 +1,139 @@
-/- C04 — theorems under construction. -/
-import BEI.Model.App
+/-
+  C04 — Most significant inputs win; values accumulate and keep the output type; evaluation never panics.
+-/
+import BEI.Proofs.Update
+import Mathlib.Tactic.Ring
 namespace BEI.Props.C04
-theorem placeholder_true : True := trivial
+open BEI
+
+/-- (1) which inputs contribute: exactly those whose *own* state is the most significant non-None state among all
+    evaluated inputs of the action (in binding order) -/
+theorem contributing_iff (es : List Ev) (e : Ev) :
+    e ∈ contributing es ↔ e ∈ es ∧ e.state = topState es ∧ topState es ≠ .none := by
+  simp [contributing, List.mem_filter]
+
+/-- the most significant state dominates every evaluated input, and is attained when it is not None -/
+theorem topState_max (es : List Ev) : ∀ x ∈ es, x.state.rank ≤ (topState es).rank := rank_le_top es
+
+theorem topState_attained (es : List Ev) (h : topState es ≠ .none) : ∃ x ∈ es, x.state = topState es := by
+  have key : ∀ (es : List Ev) (m : AState),
+      es.foldl (fun m e => AState.maxS m e.state) m = m ∨
+      ∃ x ∈ es, x.state = es.foldl (fun m e => AState.maxS m e.state) m := by
+    intro es
+    induction es with
+    | nil => intro m; left; rfl
+    | cons y ys ih =>
+      intro m
+      simp only [List.foldl_cons]
+      rcases ih (AState.maxS m y.state) with h | ⟨x, hx, hxs⟩
+      · rw [h]
+        unfold AState.maxS
+        split
+        · right; exact ⟨y, by simp, rfl⟩
+        · left; rfl
+      · right; exact ⟨x, by simp [hx], hxs⟩
+  rcases key es .none with h' | h'
+  · exact absurd h' h
+  · exact h'
+
+/-- (2) the value and the state reported after one `ActionBind::update`, for every configuration (any number of inputs of
+    any raw dimension, arbitrary modifier and condition machines at both levels, both accumulation modes, all four
+    output dimensions): each contributing raw value passes through that input's modifiers in declaration order, the
+    results are accumulated in binding order, the merged value passes through the action-level modifiers in declaration
+    order, and the reported value is that converted to the action's dimension. -/
+theorem value_spec (ab : ActionBind) (r : Reader) (av : ActionsView) (t : Tick) (es : List Nat)
+    (o : ActionBind.Out) (h : ab.update r av t es = some o) :
+    ∃ d, o.actions.get? ab.action = some d ∧
+      let C := contributing (evalAll r av t ab.bindings)
+      d.value = (runMods av t ab.mods (mergedValue ab.dim ab.accum (C.map (·.tracker.value)))).convert ab.dim
+      ∧ d.value.dim = ab.dim
+      ∧ (∀ e ∈ C, ∃ b ∈ ab.bindings, e.input = b.input ∧ e.tracker.value = runMods av t b.mods (r.value b.input)) := by
+  obtain ⟨old, d, hold, hd, hchar⟩ := update_char ab r av t es o h
+  obtain ⟨hdv, _⟩ := hchar
+  refine ⟨d, hd, ?_, ?_, ?_⟩
+  · rw [hdv]; simp [ActionData.update]
+  · rw [hdv]; simp [ActionData.update, convert_dim']
+  · intro e he
+    have hmem : e ∈ evalAll r av t ab.bindings := (List.mem_filter.mp he).1
+    simp only [evalAll, List.mem_filterMap] at hmem
+    obtain ⟨b, hb, hbe⟩ := hmem
+    obtain ⟨h1, h2, _⟩ := evalInput_spec r av t b e hbe
+    exact ⟨b, hb, h1, h2⟩
+
+/-- sum of 3-vectors -/
+def sum3 (vs : List Value) : V3 := vs.foldl (fun a v => a + v.as3) V3.zero
+
+/-- keep the first `n` axes -/
+def trunc (d : Dim) (p : V3) : V3 :=
+  match d with
+  | .bool => p | .a1 => ⟨p.x, 0, 0⟩ | .a2 => ⟨p.x, p.y, 0⟩ | .a3 => p
+
+theorem V3.add_def (a b : V3) : a + b = ⟨a.x + b.x, a.y + b.y, a.z + b.z⟩ := rfl
+
+theorem ofV3_as3 (p : V3) (d : Dim) (hd : d ≠ .bool) : (Value.ofV3 p d).as3 = trunc d p := by
+  cases d <;> simp_all [Value.ofV3, Value.convert, Value.as3, Value.as1, Value.as2, trunc]
+
+theorem trunc_add (d : Dim) (a b : V3) : trunc d (a + b) = trunc d a + trunc d b := by
+  cases d <;> simp [trunc, V3.add_def]
+
+theorem trunc_trunc (d : Dim) (a : V3) : trunc d (trunc d a) = trunc d a := by
+  cases d <;> simp [trunc]
+
+/-- (3) Cumulative accumulation into a numeric output: the merged value is the sum of the contributing values with the
+    extra axes dropped and the missing axes zero ("sum then convert" = what the code does step by step) -/
+theorem merged_cumulative (d : Dim) (hd : d ≠ .bool) (vs : List Value) :
+    (mergedValue d .cumulative vs).as3 = trunc d (sum3 vs) := by
+  unfold mergedValue sum3
+  have key : ∀ (vs : List Value) (a : Value) (p : V3), a.dim = d → a.as3 = trunc d p →
+      (vs.foldl (combineValue .cumulative) a).as3 = trunc d (vs.foldl (fun a v => a + v.as3) p) := by
+    intro vs
+    induction vs with
+    | nil => intro a p _ h; simpa using h
+    | cons v vs ih =>
+      intro a p hdim h
+      simp only [List.foldl_cons]
+      apply ih
+      · rw [combineValue_dim]; exact hdim
+      · simp only [combineValue]
+        rw [hdim, ofV3_as3 _ _ hd, trunc_add, h, trunc_add, trunc_trunc]
+  apply key
+  · exact zero_dim' d
+  · cases d <;> simp [Value.zero, Value.as3, trunc, V3.zero]
+
+/-- (3') MaxAbs accumulation: per axis the largest magnitude wins (ties keep the earlier one) -/
+theorem merged_maxabs_step (a b : Value) (hd : a.dim ≠ .bool) :
+    (combineValue .maxAbs a b).as3 =
+      trunc a.dim ⟨Tracker.maxAbs1 a.as3.x b.as3.x, Tracker.maxAbs1 a.as3.y b.as3.y, Tracker.maxAbs1 a.as3.z b.as3.z⟩ := by
+  simp only [combineValue]
+  exact ofV3_as3 _ _ hd
+
+theorem maxAbs1_cases (a b : Rat) : Tracker.maxAbs1 a b = a ∨ Tracker.maxAbs1 a b = b := by
+  unfold Tracker.maxAbs1; split <;> simp
+
+theorem maxAbs1_ge (a b : Rat) :
+    Tracker.absR a ≤ Tracker.absR (Tracker.maxAbs1 a b) ∧ Tracker.absR b ≤ Tracker.absR (Tracker.maxAbs1 a b) := by
+  unfold Tracker.maxAbs1
+  split <;> constructor <;> grind
+
+/-- (4) the merged value always has the action's dimension, whatever dimension changes the modifiers perform -/
+theorem merged_dim (d : Dim) (acc : Accum) (vs : List Value) : (mergedValue d acc vs).dim = d := mergedValue_dim d acc vs
+
+/-- (5) no panic: `update` succeeds whenever the action has an `ActionsData` entry — independent of every value and
+    dimension involved (the entry exists by the registry invariant, see C07; `as_output`'s `unreachable!` cannot be hit
+    because the stored value has the declared dimension, `value_spec`) -/
+theorem no_panic (ab : ActionBind) (r : Reader) (av : ActionsView) (t : Tick) (es : List Nat)
+    (h : (av.get? ab.action).isSome) : (ab.update r av t es).isSome := update_total ab r av t es h
+
+/-- the cancellation corner after the D7 fix: the contributing set is decided by the inputs' own states, so two
+    condition-less inputs cancelling to zero followed by a lower-state input leave `(None-or-Fired by the law, 0)` —
+    the later input does not take over. Concretely: +1, −1 (both Fired), then an Ongoing input. -/
+example :
+    let mk (v : Rat) (st : AState) : Ev :=
+      { input := .key 0 {},
+        tracker := { value := .a1 v, foundExplicit := true, anyExplicitFired := st == .fired, foundActive := st != .none },
+        results := [(.explicit, st)] }
+    let es := [mk 1 .fired, mk (-1) .fired, mk 5 .ongoing]
+    (contributing es).length = 2 ∧ topState es = .fired := by
+  decide
+
 end BEI.Props.C04
